@@ -79,7 +79,9 @@ func handleRetransmitTimeout(
 
 	// RFC 4347 4.2.4.1: retransmissions use exponential backoff, capped at
 	// 60 seconds.
-	if !cfg.DisableRetransmitBackoff {
+	// An interval configured above the cap is left as it is: backoff never
+	// shortens an interval, and without backoff the interval is constant.
+	if !cfg.DisableRetransmitBackoff && *retransmitInterval < time.Second*60 {
 		// Compare before doubling: twice a very long interval does not fit
 		// a time.Duration and would come out negative.
 		if *retransmitInterval > time.Second*30 {
@@ -87,9 +89,6 @@ func handleRetransmitTimeout(
 		} else {
 			*retransmitInterval *= 2
 		}
-	}
-	if *retransmitInterval > time.Second*60 {
-		*retransmitInterval = time.Second * 60
 	}
 
 	return StateSending
